@@ -150,6 +150,26 @@ class Run:
             return True
         return False
 
+    def abort_client(self):
+        """abortive teardown by the proxy itself (inactivity timeout / shutdown cancel the connection handler): proxy/server.py then
+        delivers ConnectionClosed with the connection already in state CLOSED (no half-close)"""
+        from mitmproxy.connection import ConnectionState
+        from mitmproxy.proxy import events
+        if self.client.state & ConnectionState.CAN_READ:
+            self.client.state = ConnectionState.CLOSED
+            self.d.feed(events.ConnectionClosed(self.client))
+            return True
+        return False
+
+    def abort_server(self, idx=-1):
+        from mitmproxy.connection import ConnectionState
+        from mitmproxy.proxy import events
+        if self.servers and (self.servers[idx].state & ConnectionState.CAN_READ):
+            self.servers[idx].state = ConnectionState.CLOSED
+            self.d.feed(events.ConnectionClosed(self.servers[idx]))
+            return True
+        return False
+
     def release(self):
         return self.d.release()
 
